@@ -450,7 +450,9 @@ def r_fallback_every_tick(ctx):
     ff, cmpn, cinfo = fallback_site(ctx)
     fex = U.explorer(ctx, ff)
     fcfg = fex.cfg
-    cn = [n for n in U.nodes_containing(fcfg, cmpn) if n.kind == 'cond'][0]
+    cns = U.decision_nodes(fcfg, ff, cmpn)
+    ctx.require(cns, 'the fallback majority comparison does not decide a branch')
+    cn = cns[0]
     if ff is t:
         test_nodes = [cn.id]
     else:
@@ -471,7 +473,7 @@ def r_fallback_every_tick(ctx):
         if lit is not None and lit[0] == 'eq' and {lit[1].key, lit[2].key} == {st_key, ld_key}:
             leader_conds.append(n)
     ctx.require(leader_conds, 'no `state == LEADER` block in the tick')
-    first = min(leader_conds, key=lambda n: n.lineno)
+    first = min(leader_conds, key=lambda n: U.ordr(t, n.ast))
     tt = [d for d, l in first.succ if l == ('cond', True)][0]
     reach = cfg.reachable_from(tt, avoid=test_nodes, follow_exc=False)
     inst = 'leader tick always reaches the fallback test'
